@@ -587,20 +587,32 @@ func (s *Server) handle(db string, cmd bson.D, seqs map[string][]bson.D) bson.D 
 		}
 		return cursor(ns, res)
 	case "findAndModify":
+		// documented semantics: the pre-image is returned unless new: true; null when an upsert inserted and
+		// the pre-image was asked for
 		q, _ := get(cmd, "query")
 		uv, _ := get(cmd, "update")
 		upsert, _ := get(cmd, "upsert")
+		wantNew, _ := get(cmd, "new")
 		for j, e := range s.colls[ns] {
 			if match(e, toD(q)) {
-				s.colls[ns][j] = applyUpdate(e, toD(uv), false)
-				return bson.D{{Key: "lastErrorObject", Value: bson.D{{Key: "n", Value: int32(1)}, {Key: "updatedExisting", Value: true}}}, {Key: "value", Value: e}, {Key: "ok", Value: 1.0}}
+				nd := applyUpdate(e, toD(uv), false)
+				s.colls[ns][j] = nd
+				var ret interface{} = e
+				if wantNew == true {
+					ret = nd
+				}
+				return bson.D{{Key: "lastErrorObject", Value: bson.D{{Key: "n", Value: int32(1)}, {Key: "updatedExisting", Value: true}}}, {Key: "value", Value: ret}, {Key: "ok", Value: 1.0}}
 			}
 		}
 		if upsert == true {
 			nd := applyUpdate(append(bson.D{}, toD(q)...), toD(uv), true)
 			s.colls[ns] = append(s.colls[ns], nd)
 			id, _ := get(nd, "_id")
-			return bson.D{{Key: "lastErrorObject", Value: bson.D{{Key: "n", Value: int32(1)}, {Key: "updatedExisting", Value: false}, {Key: "upserted", Value: id}}}, {Key: "value", Value: nil}, {Key: "ok", Value: 1.0}}
+			var ret interface{}
+			if wantNew == true {
+				ret = nd
+			}
+			return bson.D{{Key: "lastErrorObject", Value: bson.D{{Key: "n", Value: int32(1)}, {Key: "updatedExisting", Value: false}, {Key: "upserted", Value: id}}}, {Key: "value", Value: ret}, {Key: "ok", Value: 1.0}}
 		}
 		return bson.D{{Key: "lastErrorObject", Value: bson.D{{Key: "n", Value: int32(0)}, {Key: "updatedExisting", Value: false}}}, {Key: "value", Value: nil}, {Key: "ok", Value: 1.0}}
 	}
